@@ -825,6 +825,7 @@ func (w *worldA) doReload(op Op) {
 				w.drv.Settle()
 			default:
 				w.stress.disarm()
+				close(release)
 			}
 		} else {
 			c.Reload()
@@ -946,6 +947,42 @@ func (w *worldA) midReloadDecision(op Op) {
 	w.out.Probe("decision_while_reload_half_done")
 }
 
+// awaitGoroutine waits until goroutine g has come to rest and says where:
+// "gate" (it closed parked and waits at a harness gate), "lock" (it waits for a
+// mutex), "idle" (blocked anywhere else: back in its loop) or "gone". What it
+// never does is guess from elapsed time: the answer is read off the runtime's
+// own goroutine states, so it is the same on one core or sixteen.
+func awaitGoroutine(g int64, parked <-chan struct{}) string {
+	for i := 1; ; i++ {
+		select {
+		case <-parked:
+			return "gate"
+		default:
+		}
+		runtime.Gosched()
+		if i%200 != 0 {
+			continue
+		}
+		st := goroutineState(g)
+		switch {
+		case st == "":
+			return "gone"
+		case strings.HasPrefix(st, "sync.Mutex") || strings.HasPrefix(st, "sync.RWMutex") || strings.HasPrefix(st, "semacquire"):
+			return "lock"
+		case strings.HasPrefix(st, "running") || strings.HasPrefix(st, "runnable"):
+			// still at work
+		default:
+			// blocked somewhere: unless it is our gate, it is back in its loop
+			select {
+			case <-parked:
+				return "gate"
+			default:
+			}
+			return "idle"
+		}
+	}
+}
+
 // createRace: two workers reach the lazy creation of the same sampler at the
 // same time - the first is stalled inside the creation, the second starts its
 // own, the first goes on.
@@ -975,24 +1012,20 @@ func (w *worldA) createRace(op Op) {
 	if tka == nil || tkb == nil {
 		return
 	}
+	ga, gb := w.tr.WorkerGoid(int64(ta.worker)), w.tr.WorkerGoid(int64(tb.worker))
+	if ga == 0 || gb == 0 {
+		return
+	}
 	release, parked := w.gmet.arm()
 	time.Sleep(w.tracesCfgTimeout() + time.Millisecond)
 	select {
 	case tka.ch <- time.Now():
 	default:
 	}
-	stalled := false
-	for i := 0; i < 20000 && !stalled; i++ {
-		select {
-		case <-parked:
-			stalled = true
-		default:
-			runtime.Gosched()
-		}
-	}
-	if !stalled {
+	if awaitGoroutine(ga, parked) != "gate" {
 		// no creation happened (the worker already had this sampler)
 		w.gmet.disarm()
+		close(release)
 		w.drv.Settle()
 		return
 	}
@@ -1002,9 +1035,7 @@ func (w *worldA) createRace(op Op) {
 	default:
 	}
 	// the second worker either creates its own now or waits for the factory's lock
-	for i := 0; i < 5000; i++ {
-		runtime.Gosched()
-	}
+	awaitGoroutine(gb, nil)
 	close(release)
 	w.drv.Settle()
 }
@@ -1012,35 +1043,27 @@ func (w *worldA) createRace(op Op) {
 // peersRace: a lazy sampler creation on a worker looks the peer list up, is
 // overtaken by a membership change, and only then applies what it looked up.
 func (w *worldA) peersRace(op Op) {
-	release, parked := w.gpeers.arm()
 	// a root span of a new trace, decided at the next tick of its worker: if that
 	// worker has no sampler for the selector yet, it creates one now
 	w.doSpan(Op{ID: op.ID, K: "span", I: op.I, N: skRoot | op.J<<8, S: op.S})
 	w.drv.Settle()
 	tm := w.byIdx[int(op.I)]
 	tk := w.clk.Find(fmt.Sprintf("a/worker/%d", tm.worker))
-	if tk == nil {
-		w.gpeers.disarm()
+	g := w.tr.WorkerGoid(int64(tm.worker))
+	if tk == nil || g == 0 {
 		return
 	}
+	release, parked := w.gpeers.arm()
 	// wait until the trace is due, then tick its worker
 	time.Sleep(w.tracesCfgTimeout() + time.Millisecond)
 	select {
 	case tk.ch <- time.Now():
 	default:
 	}
-	stalled := false
-	for i := 0; i < 20000 && !stalled; i++ {
-		select {
-		case <-parked:
-			stalled = true
-		default:
-			runtime.Gosched()
-		}
-	}
-	if !stalled {
+	if awaitGoroutine(g, parked) != "gate" {
 		// no lazy creation happened (the worker already had this sampler)
 		w.gpeers.disarm()
+		close(release)
 		w.drv.Settle()
 		return
 	}
@@ -1051,12 +1074,11 @@ func (w *worldA) peersRace(op Op) {
 	}
 	w.peerCount = int(op.N)
 	done := make(chan struct{})
-	go func() { w.peers.UpdatePeers(pl); close(done) }()
+	gid := make(chan int64, 1)
+	go func() { gid <- goid(); w.peers.UpdatePeers(pl); close(done) }()
 	// the membership callback either completes now or waits for the factory's
 	// lock, which the stalled creation may hold
-	for i := 0; i < 5000; i++ {
-		runtime.Gosched()
-	}
+	awaitGoroutine(<-gid, done)
 	close(release)
 	<-done
 	w.drv.Settle()
